@@ -14,6 +14,11 @@ ID = "C10"
 
 
 # ------------------------------------------------------------------------------------------ model families
+def logits(M):
+    """logit tables of a case: a `None` entry is a structural zero (logit -inf), e.g. an emission that cannot happen"""
+    return np.asarray([[logits(r) if isinstance(r, list) else (-np.inf if r is None else r) for r in row] if isinstance(row, list) else (-np.inf if row is None else row) for row in M], dtype=np.float32) if isinstance(M, list) else np.float32(M)
+
+
 def softmax_rows(M):
     M = np.asarray(M, dtype=np.float64)
     return np.exp(M - sp.logsumexp(M, axis=-1, keepdims=True))
@@ -24,7 +29,7 @@ def build_discrete(case):
     import jax.numpy as jnp
     from genjax import categorical, gen
 
-    T, E, Q = (jnp.asarray(np.asarray(case[k], dtype=np.float32)) for k in ("T", "E", "Q"))
+    T, E, Q = (jnp.asarray(logits(case[k])) for k in ("T", "E", "Q"))
 
     @gen
     def model(prev):
@@ -64,9 +69,9 @@ def build_discrete(case):
 
 
 def discrete_ref(case):
-    T = softmax_rows(np.asarray(case["T"], dtype=np.float32))
-    E = softmax_rows(np.asarray(case["E"], dtype=np.float32))
-    Q = softmax_rows(np.asarray(case["Q"], dtype=np.float32))
+    T = softmax_rows(logits(case["T"]))
+    E = softmax_rows(logits(case["E"]))
+    Q = softmax_rows(logits(case["Q"]))
     return T, E, Q
 
 
@@ -122,7 +127,7 @@ def ref_increment(case, z, prev, y, custom):
     """log weight increment of one particle for one init/extend move"""
     if case["family"] == "D":
         T, E, Q = discrete_ref(case)
-        inc = math.log(E[z, y])
+        inc = math.log(E[z, y]) if E[z, y] > 0 else -math.inf
         if custom:
             inc += math.log(T[prev, z]) - math.log(Q[prev, y, z])
         return inc
@@ -188,7 +193,7 @@ def run_pipeline(case, key, check=False):
             pv = prevs[i] if np.ndim(prevs) else prevs
             inc = ref_increment(case, zs[i].item(), pv.item(), np.float32(y).item() if case["family"] == "G" else int(y), custom)
             want = (old_lw[i] if old_lw is not None else 0.0) + inc
-            if not abs(lw[i] - want) <= 2e-4 + 2e-5 * abs(want):
+            if (lw[i] != want) if not np.isfinite(want) else (not abs(lw[i] - want) <= 2e-4 + 2e-5 * abs(want)):
                 fails.append((f"particle_weight_after_{name}:{C}", f"particle {i}: log weight {lw[i]} != previous {old_lw[i] if old_lw is not None else 0.0} + log p(choices, obs)/q(choices) increment {inc} (z={zs[i]}, prev={pv}, y={y})"))
                 return
         ys_recorded = np.asarray(latent(case, new_parts.traces.get_choices(), "y"))
@@ -214,14 +219,14 @@ def run_pipeline(case, key, check=False):
             parts = seed(lambda p: S.resample(p, "categorical" if mv == "resample_cat" else "systematic"))(k, parts)
             if check:
                 lml = float(parts.log_marginal_likelihood())
-                if not abs(lml - old_lml) <= 1e-4 + 1e-5 * abs(old_lml):
+                if (lml != old_lml) if not np.isfinite(old_lml) else (not abs(lml - old_lml) <= 1e-4 + 1e-5 * abs(old_lml)):
                     fails.append((f"estimate_changed_by_resample:{C}", f"{old_lml} -> {lml}"))
         elif mv == "rejuvenate":
             parts = seed(lambda p: S.rejuvenate(p, lambda tr: mh(tr, zsel(case))))(k, parts)
             if check:
-                if not np.array_equal(np.asarray(parts.log_weights, dtype=np.float64), old_lw):
+                if not np.array_equal(np.asarray(parts.log_weights, dtype=np.float64), old_lw, equal_nan=True):
                     fails.append((f"rejuvenate_changed_weights:{C}", f"{old_lw.tolist()} -> {np.asarray(parts.log_weights).tolist()}"))
-                if not np.array_equal(np.asarray(parts.diagnostic_weights), old_diag):
+                if not np.array_equal(np.asarray(parts.diagnostic_weights), old_diag, equal_nan=True):  # all particles dead: normalised weights are undefined (nan) before and after
                     fails.append((f"rejuvenate_changed_diagnostic_weights:{C}", ""))
                 if not np.all(np.asarray(latent(case, parts.traces.get_choices(), "y")) == (np.float32(case["obs"][t - 1]) if case["family"] == "G" else case["obs"][t - 1])):
                     fails.append((f"rejuvenate_touched_observation:{C}", ""))
@@ -389,7 +394,15 @@ def cases():
     def disc(draw):
         K, M = draw(st.integers(2, 3)), draw(st.integers(2, 3))
         Tn = draw(st.integers(1, 4))
-        return {"family": "D", "nested": draw(st.booleans()), "T": [[draw(lg) for _ in range(K)] for _ in range(K)], "E": [[draw(lg) for _ in range(M)] for _ in range(K)],
+        E = [[draw(lg) for _ in range(M)] for _ in range(K)]
+        if draw(st.integers(0, 2)) == 0:
+            # structural zeros in the emission table (None = logit -inf): particles whose state cannot emit the observation
+            # get log weight -inf; every state keeps a possible symbol and every symbol a possible state
+            for _ in range(draw(st.integers(1, 2))):
+                z, y = draw(st.integers(0, K - 1)), draw(st.integers(0, M - 1))
+                if sum(e is not None for e in E[z]) > 1 and sum(E[k][y] is not None for k in range(K)) > 1:
+                    E[z][y] = None
+        return {"family": "D", "nested": draw(st.booleans()), "T": [[draw(lg) for _ in range(K)] for _ in range(K)], "E": E,
                 "Q": [[[draw(lg) for _ in range(K)] for _ in range(M)] for _ in range(K)], "obs": [draw(st.integers(0, M - 1)) for _ in range(Tn)]}
 
     @st.composite
@@ -429,6 +442,8 @@ def one_case(ctx, case):
         cls = ["C10.rejuvenation_smc"] + (["C10.rsmc_with_kernel"] if case["kernel"] else [])
     if case.get("nested"):
         cls.append("C10.nested_addresses")
+    if case["family"] == "D" and any(e is None for row in case["E"] for e in row):
+        cls.append("C10.zero_probability_emissions")
     cls += [f"C10.family_{case['family']}", f"C10.proposal_{'custom' if case['custom'] else 'default'}", f"C10.N_{case['N'] if case['N'] <= 2 else 'many'}"]
     ctx.case(case, bool(nt), cls, sample={**case, "info": info})
     for b, w in fails:
